@@ -1,6 +1,6 @@
 /-
   Source tie, group NcSerialize: `renetcode/src/serialize.rs` (whole file: `read_u64/u32/u16/u8`, `read_bytes<N>`,
-  `read_i32`) and `renetcode/src/packet.rs` `read_sequence`, `write_sequence`, `get_additional_data`, translated over
+  `read_i32`) and `renetcode/src/packet.rs` `read_sequence`, `get_additional_data` (`write_sequence`: group NcSequence), translated over
   the `io::Cursor` models of RustSem (`&mut impl io::Read` ↦ `ReadCursor`, `&mut impl io::Write` ↦ `WriteCursor`),
   ↔ the readers / the writer `Wr` of `Netcode/Util.lean` and `Netcode/Wire.lean`.
 
@@ -36,12 +36,6 @@ theorem nc_read_sequence (buf rest : Bytes) (h : rest <:+ buf) (len : Nat) :
     Src.renetcode.packet.read_sequence (rcur buf rest) len = rdRes buf id (Packet.readSequence rest len) :=
   read_sequence_eq h len
 
-/-- `write_sequence(out, seq)` ↔ `Packet.writeSequence` (a short write is not an error): never panics -/
-theorem nc_write_sequence (w : Wr) (tail : List Nat) (h : WrOk w tail) (seq : Nat) :
-    Src.renetcode.packet.write_sequence (wcur w tail) seq =
-      .ok (wcur (Packet.writeSequence w seq).1 (tail.drop (Packet.writeSequence w seq).2), (Packet.writeSequence w seq).2) :=
-  write_sequence_eq h seq
-
 /-- `get_additional_data(prefix, protocol_id)` ↔ `Packet.additionalData`: never panics -/
 theorem nc_get_additional_data {ε : Type} (pfx : UInt8) (protocolId : Nat) :
     (Src.renetcode.packet.get_additional_data pfx.toNat protocolId : Res ε (List Nat)) =
@@ -56,10 +50,6 @@ example : Src.renetcode.serialize.read_bytes 2 (ReadCursor.new [5, 6, 7]) = .ok 
 example : Src.renetcode.packet.read_sequence (ReadCursor.new [0x34, 0x12, 9]) 2 = .ok (⟨[0x34, 0x12, 9], 2⟩, 0x1234) := by
   decide +kernel
 example : Src.renetcode.packet.read_sequence (ReadCursor.new [0x34, 0x12, 9]) 9 = .err .opaque := by decide +kernel
-example : Src.renetcode.packet.write_sequence (WriteCursor.new [0, 0, 0, 0]) 0x1234 = .ok (⟨[0x34, 0x12, 0, 0], 2⟩, 2) := by
-  decide +kernel
-/-- short write: one byte of room for a two-byte sequence -/
-example : Src.renetcode.packet.write_sequence ⟨[7, 0], 1⟩ 0x1234 = .ok (⟨[7, 0x34], 2⟩, 1) := by decide +kernel
 example : (Src.renetcode.packet.get_additional_data 0x25 1 : Res Empty _) =
     .ok [78, 69, 84, 67, 79, 68, 69, 32, 49, 46, 48, 50, 0, 1, 0, 0, 0, 0, 0, 0, 0, 0x25] := by decide +kernel
 
